@@ -440,14 +440,14 @@ func main() {
 	if !r.Quick() {
 		sizes = append(sizes, 16383, 16384, 16385, 262143, 262144, 262145)
 	}
-	st = r.ExploreSharded("sizes", fmt.Sprintf("7 dimensions (vertices of a line, points of a multi-point, rings of a polygon, polygons, features, distinct keys / values of a layer, layers) x %d counts around the varint boundaries: round trip", len(sizes)), mc.Opts{MaxDev: -1}, 16, func(c *mc.Ctx) {
-		dim := c.Choose(7)
+	st = r.ExploreSharded("sizes", fmt.Sprintf("10 dimensions (vertices of one ring inside a polygon / the second polygon of a multi-polygon, of one line inside a multi-line; vertices of a line, points of a multi-point, rings of a polygon, polygons, features, distinct keys / values of a layer, layers) x %d counts around the varint boundaries: round trip", len(sizes)), mc.Opts{MaxDev: -1}, 16, func(c *mc.Ctx) {
+		dim := c.Choose(10)
 		si := c.Choose(len(sizes))
 		if !r.Owned(c, dim*len(sizes)+si) {
 			return
 		}
 		n := sizes[si]
-		if n > 20000 && dim >= 2 {
+		if n > 20000 && dim >= 2 && dim <= 6 {
 			c.Skip() // the largest counts only for vertex and point lists
 			return
 		}
@@ -509,6 +509,27 @@ func main() {
 				f := geojson.NewFeature(orb.Point{float64(i % 4096), 2})
 				f.Properties["layer"] = float64(i)
 				ls = append(ls, &mvt.Layer{Name: fmt.Sprintf("l%d", i), Version: 2, Extent: 4096, Features: []*geojson.Feature{f}})
+			}
+		case 7, 8, 9: // n vertices in ONE inner sequence: the outer ring of a polygon with a hole, a ring of the second polygon, a line of a multi-line
+			long := make(orb.Ring, 0, n+4)
+			for i := 0; i <= n; i++ {
+				long = append(long, orb.Point{float64(i), 0})
+			}
+			long = append(long, orb.Point{float64(n), 10}, orb.Point{0, 10}, orb.Point{0, 0})
+			if long.Orientation() != square(0, 0, 1, true).Orientation() {
+				long.Reverse()
+			}
+			switch dim {
+			case 7:
+				p := orb.Polygon{long}
+				if n >= 4 {
+					p = append(p, square(1, 2, 2, false))
+				}
+				layer.Features = []*geojson.Feature{geojson.NewFeature(p)}
+			case 8:
+				layer.Features = []*geojson.Feature{geojson.NewFeature(orb.MultiPolygon{{square(-8, 0, 2, true)}, {long}})}
+			case 9:
+				layer.Features = []*geojson.Feature{geojson.NewFeature(orb.MultiLineString{{{-3, 1}, {-2, 5}}, orb.LineString(long[:n+1]), {{-3, 2}, {-2, 6}}})}
 			}
 		}
 		roundTrip(c, ls, fmt.Sprintf("dimension=%d count=%d", dim, n))
